@@ -345,7 +345,7 @@ def to_model_input(sp: Spies):
                 fr = func_roots.get(gkey(node.func_graph))
                 if fr is None:
                     notes.append("function graph compile not observed")
-                j.update(k="func", d=node.op_type.domain, v=node.op_type.version,
+                j.update(k="func", d=node.op_type.domain, v=node.op_type.version, nm=node.op_type.identifier,
                          subs=[graph(fr)] if fr else [])
             elif isinstance(node, _InternalNode):
                 j.update(k="internal")
@@ -500,6 +500,7 @@ def extract_real(obs):
                         collect(s_)
 
         collect(req)
+        real["func_emitted"] = [[f.domain, f.name] for f in obs["model"].functions]
         for f in obs["model"].functions:
             real["func_imports"][f"{f.domain}:{f.name}"] = [[o.domain, o.version] for o in f.opset_import]
     return real
@@ -566,6 +567,14 @@ def compare(real, m, mismatches):
             mismatches.append(("node", f"{len(missing)} model nodes never adapted by the real code"))
         if len(real["func_keys"]) != len(m["funcs"]):
             mismatches.append(("functions", f"{len(real['func_keys'])} function nodes, model lists {len(m['funcs'])}"))
+        # the loop of to_onnx_model over the functions: occurrences (keys in order) and what is emitted —
+        # one FunctionProto per (domain, name), in first-occurrence order
+        if "funcKeys" in m:
+            if real["func_keys"] != m["funcKeys"]:
+                mismatches.append(("functions", f"function occurrences {real['func_keys']}, model {m['funcKeys']}"))
+            emitted = real.get("func_emitted")
+            if emitted is not None and m.get("merged") != emitted:
+                mismatches.append(("functions", f"model.functions {emitted}, model's merge {m.get('merged')}"))
         for (dom, name), mf in zip(real["func_keys"], m["funcs"]):
             ri = real["func_imports"].get(f"{dom}:{name}")
             if ri is None:
